@@ -5,9 +5,12 @@ package rules
 // other init of the package (file name) and only widens Props.
 
 var round7Registrations = map[string][]string{
-	"R-CMP-6": {"C03"}, // BETWEEN / IN expansions decide which rows a WHERE keeps (C03-13)
-	"R-PAR-3": {"C17"}, // the partitions of Analyze are built in row order (C17-13)
-	"R-TXN-6": {"C02"}, // a cancelled encode never reports success: the file would hold a prefix of the table (C02-14)
+	"R-CMP-6":  {"C03"}, // BETWEEN / IN expansions decide which rows a WHERE keeps (C03-13)
+	"R-PAR-3":  {"C17"}, // the partitions of Analyze are built in row order (C17-13)
+	"R-TXN-6":  {"C02"}, // a cancelled encode never reports success: the file would hold a prefix of the table (C02-14)
+	"R-SCP-1":  {"C05"}, // a data-changing statement stores its result back where the innermost-first lookup found the table (C05-14)
+	"R-LOCK-6": {"C08"}, // a failing CREATE TABLE releases the handler it created (C08-13)
+	"R-OWN-1":  {"C08"}, // … and only the owner of a handler releases it
 }
 
 func init() {
